@@ -48,10 +48,17 @@ def ev(e: ast.expr, env: dict[str, object]):
         v = ev(e.operand, env)
         if isinstance(e.op, ast.Not):
             return not v
+        if isinstance(e.op, ast.Invert) and isinstance(v, bool):
+            return not v  # numpy boolean mask negation
         if isinstance(e.op, ast.USub):
             return -v
         if isinstance(e.op, ast.UAdd):
             return +v
+    if isinstance(e, ast.BinOp) and isinstance(e.op, (ast.BitAnd, ast.BitOr)):
+        a, b = ev(e.left, env), ev(e.right, env)
+        if isinstance(a, bool) and isinstance(b, bool):
+            return (a and b) if isinstance(e.op, ast.BitAnd) else (a or b)
+        raise PredUnsupported(f"`{norm(e)}`: bitwise operator on non-boolean operands")
     if isinstance(e, ast.BinOp):
         a, b = ev(e.left, env), ev(e.right, env)
         try:
